@@ -102,3 +102,38 @@ pub fn b3(b: &[u8]) -> [u8; 32] {
 pub fn short_hex(h: &[u8; 32]) -> String {
     h[..6].iter().map(|b| format!("{b:02x}")).collect()
 }
+
+pub fn smoke(mode: &str) -> i32 {
+    let mut w = World::new();
+    let t = w.clock_ns - 5_000_000_000;
+    for h in ["local", "remote"] {
+        w.host(h).mkdir_p("/home/u", t);
+        w.host(h).mkdir_p(crate::stubs::REMOTE_HOME, t);
+    }
+    let (src_host, dst_host) = match mode {
+        "push" => ("local", "remote"),
+        "pull" => ("remote", "local"),
+        _ => ("local", "local"),
+    };
+    w.host(src_host).put_file("/data/src/a.txt", b"alpha", t);
+    w.host(src_host).put_file("/data/src/sub/b q'x.bin", &vec![7u8; 300_000], t + 500);
+    w.host(src_host).put_file("/data/src/sub/deep/c", b"", t);
+    w.host(dst_host).put_file("/data/dst/stale", b"old", t);
+    w.host(dst_host).put_file("/data/dst/a.txt", b"ALPHA", t);
+    let (s, d) = match mode {
+        "push" => ("/data/src".to_string(), "remote:/data/dst".to_string()),
+        "pull" => ("remote:/data/src".to_string(), "/data/dst".to_string()),
+        _ => ("/data/src".to_string(), "/data/dst".to_string()),
+    };
+    let mut cfg = RunCfg::default();
+    cfg.seed = 7;
+    let out = run_one(w, cfg, "sync", "local", &sv(&["copia", "sync", "-r", &s, &d, "--delete", "--jobs", "2"]), env_of(&[("HOME", "/home/u")]));
+    for p in &out.procs {
+        println!("{} {:?} exit={:?}\n--stdout--\n{}--stderr--\n{}", p.role, p.argv, p.exit, p.out_str(), p.err_str());
+    }
+    for (k, (b, m)) in out.world.fs(dst_host).tree("/data/dst") {
+        println!("dst {k:?} {} bytes mtime {}", b.len(), m);
+    }
+    println!("steps={} deadlock={} budget={}", out.stats.steps, out.deadlock, out.budget_exceeded);
+    0
+}
